@@ -61,7 +61,14 @@ def extract(ctx):
         raise facts.TieBroken('prune_modifier_types loop not found')
     facts.write_gen('FactsC16', 'Definition ws_valid_joins : list string := %s.\nDefinition prune_types_via_dict : bool := %s.\n'
                     % (facts.coq_strlist(joins), core.cbool(via_dict)))
-    return dict(valid_joins=joins, prune_types_via_dict=via_dict)
+    # tie to the source: coq/gen/WorkspaceGen.v is written from $VERIF_REPO/src on every run (harness/props/c16_tie.py)
+    from harness.props import c16_tie
+    return dict(valid_joins=joins, prune_types_via_dict=via_dict, translated_from_source=c16_tie.extract(ctx))
+
+
+def generate():
+    from harness.props import c16_tie
+    return c16_tie.generate()
 
 
 HEADER = '''From Coq Require Import ZArith QArith Qcanon String List.
@@ -1226,12 +1233,26 @@ def run(ctx):
     try:
         ctx.coverage['extracted_facts'] = extract(ctx)
     except facts.TieBroken as e:
-        tie = 'fact extraction failed: %s' % e
-        have_facts = False
+        tie = 'translation of pyhf/workspace.py to Gallina / fact extraction failed (harness/props/c16_tie.py, c16.py:extract): %s' % e
+        have_facts = os.path.exists(os.path.join(core.COQ, 'gen', 'FactsC16.v'))       # the facts are written before the translation starts
     if tie is None:
         ok, txt = core.prove(ctx)
         if not ok:
-            tie = 'proof obligations of props/C16.v no longer check: ' + txt[-1200:]
+            why = ('the functions translated from the source no longer coincide with the hand model (coq/TieWorkspace.v, C16_source_is_model_*): '
+                   if ('TieWorkspace' in txt or 'source_is_model' in txt or 'WorkspaceGen' in txt) else 'proof obligations of props/C16.v no longer check: ')
+            tie = why + txt[-1200:]
+    ctx.trusted += ['harness/props/c16_tie.py + harness/props/tie_translate.py (python ast -> Gallina for _join_items, _join_versions, _join_channels, '
+                    '_join_observations, _join_parameter_configs, _join_measurements, Workspace.combine, _prune_and_rename, prune, rename, sorted; fail closed): '
+                    'C16_source_is_model_* prove the translated definitions equal to the hand model as functions on the workspace AST; the reading of the python '
+                    'values (documents = records, one definition per join text, sets / Counter / setdefault / sort as list functions, private-copy tracking, '
+                    'Workspace(..) = construct, the mixin summaries) is stated in the header of coq/gen/WorkspaceGen.v']
+    model_ok = True
+    if tie is not None and have_facts:
+        # the hand model is run for the correspondence even when a tie theorem (or the translation) no longer checks
+        rc_model, mout, _ = core.coq_make(['WorkspaceRun.vo', 'gen/FactsC16.vo'])
+        model_ok = rc_model == 0
+        if not model_ok:
+            tie = tie + ' | the hand model does not build: ' + mout[-400:]
     ctx.log('facts extracted, %d/%d obligations discharged' % (ctx.discharged, ctx.obligations))
     ctx.trusted += ['harness/props/c16.py: workspace generators, python dict -> Gallina AST printer (fail closed on unknown keys)',
                     'numbers are compared by exact value (the int/float spelling of a JSON number is not modelled; Python == ignores it too)',
@@ -1309,7 +1330,7 @@ def run(ctx):
     # ---- model inside Coq ----
     disagree = []
     model_stats = {}
-    if have_facts and (tie is None or 'make failed' not in tie or 'props/C16' in tie):
+    if have_facts and model_ok:
         try:
             outs = eval_groups(ctx, groups)
             for gi, (g, rs) in enumerate(zip(groups, all_results)):
@@ -1322,7 +1343,7 @@ def run(ctx):
                     if mo != res['outcome'] or (mo == 'ok' and h1 != fingerprint(res['out'])):
                         disagree.append((gi, oi, mo))
         except (core.CoqEvalError, NotRepresentable) as e:
-            tie = 'model evaluation failed: %s' % str(e)[-800:]
+            tie = (tie + ' | ' if tie else '') + 'model evaluation failed: %s' % str(e)[-800:]
     ctx.log('model: %d disagreements' % len(disagree))
     first = None
     if disagree:
